@@ -3,7 +3,7 @@ import fw
 from sched import disp_oracle as do
 from sched import disp_prop as dp
 
-LEAN_TARGETS = ["RxProofs.C27"]
+LEAN_TARGETS = ["RxProofs.C27", "RxProofs.C26Heap"]
 DRIVER = "drv_disp"
 DRIVER_ROOT = "Disp"
 PROCS = 1  # histories take microseconds; a process pool costs more than it saves
@@ -15,6 +15,7 @@ THEOREMS = [
     "C27.underlying_kept_while_needed",
     "C27.inner_double_dispose_releases_once",
     "C27.late_dependents_inert",
+    "C26Heap.refcount_refines_heap",  # the C02/C03 heap model of RefCount+Inner is this class model (refinement)
 ]
 RULE = ("(a) call histories of 0..16 (thorough 0..40) get-dependent / dispose-dependent (any earlier handle, also repeatedly) / "
         "dispose-primary calls; compared per call: result, underlying dispose count, is_disposed, is_primary_disposed, kind of every "
